@@ -1,0 +1,12 @@
+//go:build !verif
+
+package server
+
+import "github.com/bbockelm/cedar/security"
+
+// verifOn is false unless built with -tags verif; hook call sites are
+// `if verifOn { ... }` and compile to nothing without the tag.
+const verifOn = false
+
+func (s *Server) verifDispatch(path string, cmd int, followOn bool, c *Conn, neg *security.SecurityNegotiation) {
+}
